@@ -331,7 +331,7 @@ impl G<'_> {
                 let b = self.blk(T::U, d, false);
                 E::If1(Box::new(c), b)
             }
-            70..=79 if !self.frag => {
+            70..=79 => {
                 let mut l = self.expr(T::L, d);
                 if matches!(&l, E::List(v) if v.is_empty()) {
                     // `for x in []` leaves the element type open while the body is checked
@@ -418,7 +418,7 @@ impl G<'_> {
             }
             match self.p.below(100) {
                 0..=34 => {
-                    let ty = if self.frag { *self.p.pick(&[T::I, T::I, T::B, T::O, T::R, T::E, T::S]) } else { *self.p.pick(&LET_TYS) };
+                    let ty = *self.p.pick(&LET_TYS);
                     let e = self.expr(ty, d);
                     let x = self.fresh(ty, true);
                     stmts.push(S::Let(x, e));
